@@ -93,6 +93,9 @@ func c07Scenarios(thorough bool) []pwScenario {
 		big.Cap, big.Batch, big.Slots = 4, 1, 1
 		big.Pre = []pwPre{pre(4, 4, st, "secondary")}
 		big = withStored(big, "z")
+		partial := base
+		partial.Cap, partial.Slots, partial.MinIdle, partial.MaxIdle = 4, 1, 0, 1
+		partial.Pre = []pwPre{pre(4, 4, st, "secondary")}
 		n := st.name
 		out = append(out,
 			// assign faults while two requests wait
@@ -106,6 +109,9 @@ func c07Scenarios(thorough bool) []pwScenario {
 			pwScenario{Name: "F6-cancel-anywhere/" + n, Cfg: one, Threads: [][]pwOp{ops("addce:a")}, After: ops("add:b"), Budget: [4]int{d, 0, 0, 1}, Heal: 1, Steps: 4000},
 			// shrink by more addresses than one unassign call may carry
 			pwScenario{Name: "F7-shrink-beyond-batch/" + n, Cfg: big, Threads: [][]pwOp{ops("syncpool"), ops("add:a", "del:a")}, After: ops("syncpool"), Budget: [4]int{d, 0, f, 0}, Faults: true, Heal: 3, Steps: 4000},
+			// one metadata view omits an idle address that is still assigned; the pool marks it invalid; the next trim must
+			// hand it back to the cloud, not just forget it
+			pwScenario{Name: "F8-partial-metadata-view;trim/" + n, Cfg: partial, Threads: [][]pwOp{ops("add:a", "hidenext:0", "lsync:0", "syncpool", "syncpool"), ops("add:b")}, After: ops("syncpool"), Budget: [4]int{d, 0, 0, 0}, Heal: 2, Steps: 4000},
 			// healthy: watermark band after churn
 			pwScenario{Name: "F5-healthy-churn/" + n, Cfg: one, Threads: [][]pwOp{ops("add:a", "add:b", "del:a"), ops("syncpool")}, Budget: [4]int{d + 1, 1, 0, 0}, Heal: 3, Steps: 4000},
 		)
@@ -118,6 +124,6 @@ func zeroIdle(c pwCfg) pwCfg { c.MinIdle, c.MaxIdle = 0, 0; return c }
 func TestVerifC07(t *testing.T) {
 	r := ev.New("C07", "pool-faults")
 	defer r.Flush()
-	r.Rule("real eni.Manager/Local over the simulated factory with the fault menu of the factory contract (create: error before effect / quota code / vSwitch-exhausted code / interface created and returned with error, with or without its addresses; assign: error before effect / quota / exhausted / addresses assigned and returned with error, all or part; unassign & delete: error before or after effect; metadata load error) — every placement of <=f faults over the cloud calls of scenarios F1-F5, combined with <=d scheduling deviations and one request cancellation; at quiescence Status() is compared with the simulated cloud (interfaces, addresses, ownership) and, after healthy balancer rounds, the idle count with the min/max watermark band")
+	r.Rule("real eni.Manager/Local over the simulated factory with the fault menu of the factory contract (create: error before effect / quota code / vSwitch-exhausted code / interface created and returned with error, with or without its addresses; assign: error before effect / quota / exhausted / addresses assigned and returned with error, all or part; unassign & delete: error before or after effect; metadata load error) — every placement of <=f faults over the cloud calls of scenarios F1-F8 (incl. a shrink by more addresses than one call carries and a metadata view that omits an assigned address), combined with <=d scheduling deviations and one request cancellation; at quiescence Status() is compared with the simulated cloud (interfaces, addresses, ownership) and, after healthy balancer rounds, the idle count with the min/max watermark band")
 	pwRun(r, t, "C07", c07Scenarios(ev.Thorough()), "C07")
 }
